@@ -352,7 +352,12 @@ def check_copy_keeps_config(P, R, rid, why):
     if f is None:
         R.undecided(rid, 'ombott.request_pkg.request:BaseRequest.copy', None, 'copy()', 'BaseRequest.copy not found')
         return
-    ctors = [c for c in walk_shallow(f.node) if isinstance(c, ast.Call) and (dotted(c.func) in ('self.__class__', 'Request', 'BaseRequest', 'cls') or src(c.func) == 'type(self)')]
+    def _is_ctor(c_):
+        if dotted(c_.func) in ('self.__class__', 'Request', 'BaseRequest', 'cls') or src(c_.func) == 'type(self)':
+            return True
+        ns_ = f.cfg.node_of_stmt(c_)
+        return bool(ns_) and isinstance(c_.func, ast.Name) and T.xsrc(f, c_.func, ns_[0]) in ('self.__class__', 'type(self)')
+    ctors = [c for c in walk_shallow(f.node) if isinstance(c, ast.Call) and _is_ctor(c)]
     if not ctors:
         R.undecided(rid, f, f.node, 'copy()', 'the constructor call of the copy was not found')
         return
